@@ -6,8 +6,10 @@ formula is sampled against the real calculator), independent of the Lean model:
   sum        : set-points + reported remainder = request (1e-6 relative to max(1, |request|));
   sign       : every set-point has the sign of the request or is zero;
   remainder  : the remainder has the request's sign and does not exceed it in magnitude;
-  reported-vs-commanded : `BatteryManager._distribute_power` (fake API client) reports as succeeded exactly the
-               power of the `set_power` calls that succeeded;
+  reported-vs-commanded : `BatteryManager._distribute_power` (fake API client with scripted outcomes per inverter:
+               accepted / OperationOutOfRange / another ApiClientError / unknown exception / no answer within the timeout,
+               often exactly ONE inverter refused) reports as succeeded exactly the power of the `set_power` calls the API
+               accepted;
   commanded-plus-excess : the sum clause observed at the manager: the power of ALL `set_power` calls it made plus the
                excess it reports = request — for `Request.adjust_power` True and False (False only where the real
                `_check_request` forwards the request: inside the inclusion bounds the remainder can still be
